@@ -377,8 +377,54 @@ func (c *Ctx) RunCases(sub string, n int, fn func(k *Case)) {
 	c.mu.Unlock()
 }
 
+// StuckAfter is the wall-clock time after which a single case is considered
+// stuck (a loop inside the code under test that no logical clock sees). A stuck
+// case can only be reported, not interrupted: the process prints the culprit and
+// exits with status 2 (inconclusive) so that a check never hangs forever. C18
+// owns the question whether such a hang is a violation (isolated child runs).
+var StuckAfter = 180 * time.Second
+
+type runningCase struct {
+	sub   string
+	idx   int
+	start time.Time
+}
+
+var (
+	runningMu    sync.Mutex
+	runningCases = map[*Case]runningCase{}
+	watchdogOnce sync.Once
+)
+
+func startWatchdog(c *Ctx) {
+	watchdogOnce.Do(func() {
+		go func() {
+			for {
+				time.Sleep(2 * time.Second)
+				runningMu.Lock()
+				for _, rc := range runningCases {
+					if time.Since(rc.start) > StuckAfter {
+						fmt.Printf("INCONCLUSIVE property=%s reason=case %s/%d has been running for more than %s (stuck in the code under test or in the harness); replay it with VERIF_SEED=%d\n", c.Prop, rc.sub, rc.idx, StuckAfter, c.Seed)
+						os.Exit(2)
+					}
+				}
+				runningMu.Unlock()
+			}
+		}()
+	})
+}
+
 func (c *Ctx) runOne(sub string, idx int, fn func(k *Case)) {
 	k := &Case{C: c, Sub: sub, Index: idx, R: NewRand(c.Seed, c.Prop, sub, idx), counts: map[string]int64{}}
+	startWatchdog(c)
+	runningMu.Lock()
+	runningCases[k] = runningCase{sub, idx, time.Now()}
+	runningMu.Unlock()
+	defer func() {
+		runningMu.Lock()
+		delete(runningCases, k)
+		runningMu.Unlock()
+	}()
 	func() {
 		defer func() {
 			if r := recover(); r != nil {
